@@ -228,6 +228,7 @@ type H struct {
 	ids      map[*latch.Lock]int
 	sp       *spec
 	obs      map[string]int // key -> lock that the implementation reported as successful holder
+	pubs     map[string][]*pubRec
 	maxTS    uint64
 	verdict  []string
 }
@@ -266,8 +267,53 @@ func (h *H) seeTS(ts uint64) {
 	}
 }
 
-// recycle can only ever drop a node when some timestamp of the case has a physical part >= expireDuration
-func (h *H) lenient() bool { return h.maxTS>>h.shift >= h.expireMs }
+// Every (key, commitTS) the harness released, and whether a recycle could legitimately have dropped the node that
+// remembers it: a node is dropped only by a recycle whose timestamp T satisfies physical(T) >= physical(maxCommitTS)
+// + expireDuration, and maxCommitTS >= commitTS; the recycle timestamps are the start ts of the lock in every
+// acquireSlot and the argument of every recycle op, all of which pass through recycleTS after the publication.
+type pubRec struct {
+	c           uint64
+	forgettable bool
+}
+
+func (h *H) recordPub(k string, c uint64) {
+	if c > 0 {
+		h.pubs[k] = append(h.pubs[k], &pubRec{c: c})
+	}
+}
+
+func (h *H) recycleTS(t uint64) {
+	h.seeTS(t)
+	for _, l := range h.pubs {
+		for _, p := range l {
+			if t>>h.shift >= p.c>>h.shift+h.expireMs {
+				p.forgettable = true
+			}
+		}
+	}
+}
+
+// mustStale: a commit ts above `start` was published on k and no recycle since could have expired it
+// ("published within expireDuration"): the property text demands stale.
+func (h *H) mustStale(k string, start uint64) (uint64, bool) {
+	for _, p := range h.pubs[k] {
+		if p.c > start && !p.forgettable {
+			return p.c, true
+		}
+	}
+	return 0, false
+}
+
+func (h *H) anyForgettable() bool {
+	for _, l := range h.pubs {
+		for _, p := range l {
+			if p.forgettable {
+				return true
+			}
+		}
+	}
+	return false
+}
 
 func (h *H) implState(l int) (acq int, n int, stale bool) {
 	keys, _, a, st := latch.VerifLockState(h.locks[l])
@@ -298,6 +344,7 @@ func (h *H) observeUnlock(l int) {
 // one step of acquire on the implementation + comparison with the specification
 func (h *H) astep(l int) string {
 	lock := h.locks[l]
+	h.recycleTS(h.sp.start[l]) // acquireSlot may recycle with the lock's start ts
 	want, forgot, alt := h.sp.expectA(l)
 	var res string
 	if lock.IsStale() {
@@ -305,8 +352,17 @@ func (h *H) astep(l int) string {
 	} else {
 		res = latch.VerifAcquireSlot(h.lat, lock)
 	}
-	if res != want && !(forgot && h.lenient() && res == alt) {
-		h.fail("acquire L%d want=%s got=%s", l, want, res)
+	if res != want {
+		c, must := uint64(0), false
+		if forgot {
+			c, must = h.mustStale(h.sp.keys[l][h.sp.acq[l]], h.sp.start[l])
+		}
+		if must {
+			h.fail("stale-missed L%d key=%s got=%s although commit ts %d > start ts %d was published on this key within expireDuration",
+				l, h.sp.keys[l][h.sp.acq[l]], res, c, h.sp.start[l])
+		} else if !(forgot && res == alt) {
+			h.fail("acquire L%d want=%s got=%s", l, want, res)
+		}
 	}
 	if res == "stale" && !h.sp.stale[l] && !forgot {
 		h.fail("stale-unsound L%d", l)
@@ -320,6 +376,8 @@ func (h *H) astep(l int) string {
 
 func (h *H) rstep(l int) int {
 	wake, wstale, len2 := h.sp.expectR(l)
+	relKey := h.sp.keys[l][h.sp.acq[l]-1]
+	h.recordPub(relKey, h.sp.commit[l])
 	nl := latch.VerifReleaseSlot(h.lat, h.locks[l])
 	got := -1
 	gstale := false
@@ -333,8 +391,13 @@ func (h *H) rstep(l int) int {
 	}
 	if got != wake {
 		h.fail("release L%d wake want=%d got=%d", l, wake, got)
-	} else if wake >= 0 && gstale != wstale && !(len2 && h.lenient() && !gstale) {
-		h.fail("release L%d wakes L%d stale want=%v got=%v", l, wake, wstale, gstale)
+	} else if wake >= 0 && gstale != wstale {
+		if c, must := h.mustStale(relKey, h.sp.start[wake]); must && !gstale {
+			h.fail("stale-missed L%d key=%s woken unflagged although commit ts %d > start ts %d was published on this key within expireDuration",
+				wake, relKey, c, h.sp.start[wake])
+		} else if !(len2 && !gstale) {
+			h.fail("release L%d wakes L%d stale want=%v got=%v", l, wake, wstale, gstale)
+		}
 	}
 	h.sp.applyR(l, got, gstale)
 	return got
@@ -393,7 +456,7 @@ func exec1(line string) string {
 			if !ok || n == 0 {
 				return "bad-op"
 			}
-			h := &H{lat: latch.NewLatches(uint(n)), ids: map[*latch.Lock]int{}, sp: newSpec(), obs: map[string]int{}}
+			h := &H{lat: latch.NewLatches(uint(n)), ids: map[*latch.Lock]int{}, sp: newSpec(), obs: map[string]int{}, pubs: map[string][]*pubRec{}}
 			h.nslots = latch.VerifNumSlots(h.lat)
 			h.expireMs = uint64(latch.VerifExpireMillis())
 			h.shift = tsShift()
@@ -470,10 +533,11 @@ func exec1(line string) string {
 			} else {
 				// the loop of Latches.acquire, compared step by step with the specification through the
 				// implementation's own loop: predict with a copy of the specification, then run the real method
+				h.recycleTS(h.sp.start[l])
 				pre := h.sp.clone()
 				want := pre.acquireAll(l)
 				res = latch.VerifAcquire(h.lat, h.locks[l])
-				if res != want && !h.lenient() {
+				if res != want && !h.anyForgettable() {
 					h.fail("acquire L%d want=%s got=%s", l, want, res)
 				}
 				if res == want {
@@ -540,6 +604,9 @@ func exec1(line string) string {
 			h.seeTS(c)
 			h.observeUnlock(l)
 			h.locks[l].SetCommitTS(c)
+			for _, k := range h.sp.keys[l][:h.sp.acq[l]] {
+				h.recordPub(k, c)
+			}
 			// predicted wake-up list
 			pre := h.sp.clone()
 			pre.unlock(l, c)
@@ -560,7 +627,7 @@ func exec1(line string) string {
 				ids = append(ids, h.name(x))
 			}
 			if strings.Join(gotWake, ",") != strings.Join(wantWake, ",") {
-				if !(lenientUsed && h.lenient()) {
+				if !(lenientUsed && h.anyForgettable()) {
 					h.fail("release L%d wake want=[%s] got=[%s]", l, strings.Join(wantWake, ","), strings.Join(gotWake, ","))
 				}
 				h.resyncRelease(l, c, wl)
@@ -576,7 +643,7 @@ func exec1(line string) string {
 			if !ok {
 				return "bad-op"
 			}
-			h.seeTS(ts)
+			h.recycleTS(ts)
 			latch.VerifRecycle(h.lat, ts)
 			return "ok ; " + h.dump()
 		case "recycleslot":
@@ -588,7 +655,7 @@ func exec1(line string) string {
 			if !ok1 || !ok2 {
 				return "bad-op"
 			}
-			h.seeTS(ts)
+			h.recycleTS(ts)
 			if i < h.nslots { // the model's slot map is total; the array is not
 				latch.VerifRecycleSlot(h.lat, i, ts)
 			}
@@ -924,7 +991,13 @@ func randTxns(r *vx.Rand, n int) []txn {
 }
 
 // random walk over slot-granularity and method-granularity steps, new arrivals and recycles
-func (g *gen) walk(r *vx.Rand, big bool) {
+// mode 0: small timestamps (nothing can expire); 1: minute-scale monotone clock with recycling; 2 ("skew"): one slot
+// for all 8 keys (>= latchListCount colliding keys), start/commit/recycle timestamps drawn independently from a
+// 6-minute window, so commits are often physically ahead of a later recycle timestamp or of a requester's start ts,
+// unlocks happen out of commit-ts order and recycles run in between.
+func (g *gen) walk(r *vx.Rand, mode int) {
+	big := mode >= 1
+	skew := mode == 2
 	size := []int{1, 2, 2, 4}[r.Intn(4)]
 	pool := poolKeys[:3+r.Intn(6)]
 	tag := "walk"
@@ -933,14 +1006,29 @@ func (g *gen) walk(r *vx.Rand, big bool) {
 		size = []int{1, 1, 2}[r.Intn(3)]
 		pool = poolKeys
 	}
+	if skew {
+		tag = "walk-skew"
+		size = 1
+	}
 	g.begin(size, pool, tag)
 	h := cur
 	minute := oracle.ComposeTS(60_000, 0)
+	ms := oracle.ComposeTS(1, 0)
 	clock := uint64(1)
 	if big {
 		clock = 10 * minute
 	}
+	window := func() uint64 { // anywhere in [10min, 16min], millisecond granularity, sometimes on a minute boundary
+		if r.Intn(3) == 0 {
+			return 10*minute + minute*uint64(r.Intn(7)) + uint64(r.Intn(2))
+		}
+		return 10*minute + ms*uint64(r.Intn(360_001)) + uint64(r.Intn(3))
+	}
 	tick := func() uint64 {
+		if skew {
+			clock = window()
+			return clock
+		}
 		if big {
 			switch r.Intn(4) {
 			case 0:
@@ -956,6 +1044,9 @@ func (g *gen) walk(r *vx.Rand, big bool) {
 		return clock
 	}
 	oldTS := func() uint64 { // a start ts possibly in the past: stale requests
+		if skew {
+			return window()
+		}
 		if big {
 			return clock - minute*uint64(r.Intn(4))
 		}
@@ -965,8 +1056,13 @@ func (g *gen) walk(r *vx.Rand, big bool) {
 		return clock
 	}
 	maxLocks := 2 + r.Intn(5)
+	maxSteps := 80
+	if skew {
+		maxLocks = 4 + r.Intn(5)
+		maxSteps = 120
+	}
 	steps := 0
-	for steps < 80 {
+	for steps < maxSteps {
 		steps++
 		sp := h.sp
 		var ops []string
@@ -993,7 +1089,7 @@ func (g *gen) walk(r *vx.Rand, big bool) {
 				ops = append(ops, fmt.Sprintf("rstep %d", l), fmt.Sprintf("rstep %d", l))
 			}
 		}
-		if big && r.Intn(6) == 0 {
+		if big && r.Intn(map[bool]int{false: 6, true: 3}[skew]) == 0 {
 			if r.Bool() {
 				ops = append(ops, fmt.Sprintf("recycle %d", tick()))
 			} else {
@@ -1093,7 +1189,11 @@ func main() {
 		nw = 20000
 	}
 	for i := 0; i < nw; i++ {
-		g.walk(r.Fork(), i%3 == 0)
+		mode := 0
+		if i%3 == 0 {
+			mode = 1 + (i/3)%2
+		}
+		g.walk(r.Fork(), mode)
 	}
 	// (b) the real scheduler goroutine
 	ns := 30
